@@ -667,15 +667,24 @@ impl Driver {
                     let r: String = match stray.as_str() {
                         "Schedule" => res_str(&h.schedule(policy).await).into(),
                         "Run" | "RunEarly" => res_str(&h.run(RunRequest { computation_id: cid }).await).into(),
-                        "Consts" => res_str(
-                            &h.consts(ConstsRequest {
-                                from: (p + 1) % n,
-                                computation_id: cid,
-                                consts: Default::default(),
-                            })
-                            .await,
-                        )
-                        .into(),
+                        // (non-empty constants: an empty set is ignored by the state machine anyway)
+                        "Consts" | "ConstsBad" => {
+                            let mut consts: polytune_server_core::Consts = Default::default();
+                            consts.insert(
+                                "C".into(),
+                                serde_json::from_value(json!({"NumUnsigned": [9, "U8"]})).expect("literal"),
+                            );
+                            res_str(
+                                &h.consts(ConstsRequest {
+                                    // "ConstsBad": a sender index outside the participants
+                                    from: if stray == "ConstsBad" { n + 3 } else { (p + 1) % n },
+                                    computation_id: cid,
+                                    consts,
+                                })
+                                .await,
+                            )
+                            .into()
+                        }
                         "Validate" => res_str(&h.validate(ValidateRequest::from(&policy)).await).into(),
                         "MsgBad" => res_str(
                             &h.mpc_msg(MpcMsg {
@@ -735,7 +744,7 @@ impl Driver {
         let scheduled = self.called.contains_key(&(c, p, "schedule".into()));
         let not_yet = matches!(kind.as_str(), "Init" | "AwaitingValidation" | "ValidateRequested");
         match what {
-            "MsgBad" => true,
+            "MsgBad" | "ConstsBad" => true,
             "Schedule" => scheduled,
             "MsgEarly" => !scheduled,
             "Run" | "Consts" => not_yet && quiet,
@@ -790,7 +799,7 @@ impl Driver {
         if self.budget.stray > 0 && rng.random_range(0..8) == 0 {
             let c = rng.random_range(1..=scen.pol.len());
             let p = rng.random_range(0..scen.n);
-            let kinds: Vec<&str> = ["MsgBad", "Schedule", "MsgEarly", "Run", "Consts", "Validate", "RunEarly"]
+            let kinds: Vec<&str> = ["MsgBad", "Schedule", "MsgEarly", "Run", "Consts", "Validate", "RunEarly", "ConstsBad"]
                 .into_iter()
                 .filter(|k| self.stray_allowed(c, p, k))
                 .collect();
